@@ -159,6 +159,12 @@ func (msg *Message) Array() (*Array, error) {
 	return nil, fmt.Errorf(errorInvalidMessageType, msg.Type)
 }
 
+// sanitizeLineBytes replaces CR and LF, which can not be part of a simple string, error or integer payload, with spaces.
+func sanitizeLineBytes(b []byte) []byte {
+	b = bytes.ReplaceAll(b, []byte("\r"), []byte(" "))
+	return bytes.ReplaceAll(b, []byte("\n"), []byte(" "))
+}
+
 // RESPBytes returns the RESP byte representation.
 func (msg *Message) RESPBytes() ([]byte, error) {
 	var respBytes bytes.Buffer
@@ -170,7 +176,7 @@ func (msg *Message) RESPBytes() ([]byte, error) {
 			return nil, fmt.Errorf(errorUnknownMessageType, msg.Type)
 		}
 		respBytes.WriteByte(b)
-		respBytes.Write(msg.bytes)
+		respBytes.Write(sanitizeLineBytes(msg.bytes))
 		respBytes.WriteRune(cr)
 		respBytes.WriteRune(lf)
 	case BulkMessage:
